@@ -1072,6 +1072,21 @@ func (m *Nitro) StoreToDisk(dir string, snap *Snapshot, concurr int, itmCallback
 	return err
 }
 
+// hasDuplicates reports whether a backup manifest lists a file more than once.
+// StoreToDisk names every shard differently; a repeated name means the manifest
+// is damaged, and the per-position checksums cannot tell (shards holding items
+// that differ in the same bit positions have equal checksums).
+func hasDuplicates(files []string) bool {
+	seen := make(map[string]bool, len(files))
+	for _, f := range files {
+		if seen[f] {
+			return true
+		}
+		seen[f] = true
+	}
+	return false
+}
+
 // LoadFromDisk restores Nitro from a disk backup
 func (m *Nitro) LoadFromDisk(dir string, concurr int, callb ItemCallback) (*Snapshot, error) {
 	var wg sync.WaitGroup
@@ -1101,6 +1116,9 @@ func (m *Nitro) LoadFromDisk(dir string, concurr int, callb ItemCallback) (*Snap
 	}
 	if err = json.Unmarshal(bs, &files); err != nil {
 		return nil, err
+	}
+	if hasDuplicates(files) {
+		return nil, ErrCorruptSnapshot
 	}
 
 	if bs, err := ioutil.ReadFile(filepath.Join(datadir, "checksums.json")); err == nil {
@@ -1213,6 +1231,9 @@ func (m *Nitro) LoadFromDisk(dir string, concurr int, callb ItemCallback) (*Snap
 		}
 		if err = json.Unmarshal(bs, &files); err != nil {
 			return nil, err
+		}
+		if hasDuplicates(files) {
+			return nil, ErrCorruptSnapshot
 		}
 
 		readers := make([]FileReader, len(files))
